@@ -104,4 +104,14 @@ def proxyVerdict (cs : Bool) (raw : List (Bytes × Nat)) (p : Bytes) (data : Byt
   else if status == 413 then "bad:spurious-413:"
   else "bad:no-413:body over the limit was not answered 413"
 
+/-- A request given by the wire spelling of its path (`target`, the request line as sent): the
+path the property talks about is the decoded one, so the limit that must apply is the one of the
+longest scope matching `unescape target`, however the client spells it.  Nothing is demanded for a
+target that is not a path (`unescape` fails) or when no handler was reached (`t = none`). -/
+def targetVerdict (cs : Bool) (raw : List (Bytes × Nat)) (target : Bytes) (data : Bytes) (endErr : RErr)
+    (t : Option Trace) : String :=
+  match unescapePath target, t with
+  | some p, some tr => handlerVerdict cs raw p data endErr tr
+  | _, _ => "ok"
+
 end Casket.LimitsSpec
